@@ -22,8 +22,14 @@ EXPLANATION = (
     'elementwise operation must be conformable for ALL Nr >= Nt and decode(H encode(x)) must map (Nt*n,) to '
     '(Nt*n,): an operation whose operand dimensions are different monomials (e.g. Nt vs Nr) raises for every '
     'rectangular channel. C04.b: within each scheme the memory order (order=) of the reshape in encode equals the '
-    'one in decode. Alamouti (index loops) is not interpreted. Not decided: exact recovery, energy conservation, '
-    'filter equations, MMSE -> ZF limit (numeric).')
+    'one in decode. C04.d (matrix terms, E10): the bodies of encode / decode / _calc_precoder / _calc_receive_filter / '
+    '_calcZeroForceFilter / _calcMMSEFilter are extracted as terms of a non-commutative algebra with adjoint, transpose, '
+    'conjugate, inverse and pseudo-inverse and normalised under the contracts of svd (orthonormal factors, H = U D V^H), '
+    'of the GMD (H = Q R P^H) and of pinv on full-column-rank matrices; proven for every channel at once: '
+    'decode(H encode(d)) = d for Blast/MRC/SVDMimo/GMDMimo (layout included), W^H W = I/Nt, pinv(H) H = I, '
+    '(H^H H + s I) W_mmse = H^H, W_mmse(s=0) H = I, and that Blast selects MMSE exactly when noise_var > 0. Alamouti and '
+    'MRT (elementwise code) are not interpreted. Not decided: whether util.misc.gmd honours the GMD contract, '
+    'floating-point error, conditioning.')
 
 SCHEMES = [  # class, channel shape, data size, expected encode shape, received shape
     ('Blast', ('Nr', 'Nt')), ('MRC', ('Nr', 'Nt')), ('SVDMimo', ('Nr', 'Nt')), ('GMDMimo', ('Nr', 'Nt')),
@@ -186,6 +192,7 @@ def check(ctx: Ctx) -> None:
             ctx.violation('C04.b', dec.qualname, 'encode of %s lays the symbols out with order %s but decode reads them back with order '
                           '%s: the decoded stream is a permutation of the data' % (cname, eo, do), dec.path, dec.lineno, operand='order:' + cname)
 
+    _check_algebra(ctx)
     from ..dsf import auto_memo_check
     ctx.rule('C04.c', 'no auto-discovered lazily filled cache of the classes in the anchored modules can be stale at the exit of a public method (dependencies = what the fill expression reads, incl. mutating calls on held sub-objects)', floor=6)
     auto_memo_check(ctx, 'C04.c', [MI])
@@ -193,6 +200,113 @@ def check(ctx: Ctx) -> None:
         if not ctx.violations:
             ctx.error('C04.a: shape interpreter cannot tell for ' + '; '.join(cannot_tell))
         ctx.note('C04.a could not be decided for: ' + '; '.join(cannot_tell))
+
+
+def _check_algebra(ctx: Ctx) -> None:
+    """C04.d: the linear-algebra identities of C04 as identities of MATRIX TERMS (E10), for every channel at once."""
+    from .. import matterms as X
+    from .. import terms as T
+    M = ctx.model
+    ctx.rule('C04.d', 'round trip decode(H encode(d)) = d, precoder energy W^H W = I/Nt, ZF/MMSE defining equations and the '
+                      'MMSE -> ZF limit, proven as identities of matrix terms under the SVD / GMD / pinv contracts', floor=12)
+    ctx.assume('exact arithmetic; H has full column rank (pinv(H) H = I, H^H H invertible) and Nr >= Nt; numpy svd returns '
+               'orthonormal U columns / unitary V^H with H = U diag(S) V^H; util.misc.gmd honours its contract '
+               'U diag(S) V^H = Q R P^H with orthonormal Q and unitary P (whether it does is numeric and not decided); '
+               'scalar coefficients are real')
+    H = X.MT.sym('H')
+    Nt = T.Term.sym('dim1[H]')
+    for cname in ('Blast', 'MRC', 'SVDMimo', 'GMDMimo'):
+        cls = M.cls(cname)
+        enc, dec = M.lookup_method(cls, 'encode'), M.lookup_method(cls, 'decode')
+        pre = M.lookup_method(cls, '_calc_precoder')
+        # ---- round trip
+        construct = '%s:round-trip' % cname
+        ctx.instance('C04.d', construct)
+        cx = X.Ctx()
+        it = X.MatInterp(M, cx, cls, assume={'_noise_var': 'zero'})
+        it.self_attrs['_channel'] = X.Val('mat', H)
+        try:
+            x = it.call_function(enc, [X.Val('vecsym', 'd')], {})
+            if x.kind != 'mat':
+                raise X.Unknown('encode returns a %s' % x.kind)
+            z = it.call_function(dec, [X.Val('mat', X.mul(H, x.v, cx))], {})
+            if z.kind != 'vec':
+                raise X.Unknown('decode does not return a flattened matrix (%s)' % z.kind)
+            ok, l, r = X.proves(z.v, X.MT.sym('mat_%s[d]' % z.extra), cx)
+        except X.Unknown as e:
+            ctx.error('C04.d: cannot extract the matrix terms of %s (%s): cannot tell' % (cname, e))
+        ctx.obligation('C04.d', construct, ok, {'decode_of_channel_of_encode': l.pretty(), 'expected': r.pretty(),
+                                                'contracts_used': sorted(set(cx.notes)), 'functions_interpreted': sorted(set(it.calls))})
+        if not ok:
+            ctx.violation('C04.d', dec.qualname, 'decode(H encode(d)) of %s normalises to `%s`, not to the data `%s`: the noise-free round '
+                          'trip does not return the data for a generic full-rank channel' % (cname, l.pretty(), r.pretty()),
+                          dec.path, dec.lineno, operand='round-trip:' + cname)
+        # ---- precoder energy
+        construct = '%s:energy' % cname
+        ctx.instance('C04.d', construct)
+        cx = X.Ctx()
+        it = X.MatInterp(M, cx, cls)
+        try:
+            w = it.call_function(pre, [X.Val('mat', H)], {})
+            if w.kind != 'mat':
+                raise X.Unknown('precoder is a %s' % w.kind)
+            ok, l, r = X.proves(X.mul(X.adjoint(w.v, cx), w.v, cx), X.MT.identity(T.t_pow(Nt, T.Term.const(-1))), cx)
+        except X.Unknown as e:
+            ctx.error('C04.d: cannot extract the precoder of %s (%s): cannot tell' % (cname, e))
+        ctx.obligation('C04.d', construct, ok, {'W^H W': l.pretty(), 'expected': r.pretty()})
+        if not ok:
+            ctx.violation('C04.d', pre.qualname, 'the precoder of %s has W^H W = `%s`, not I/Nt: encoding changes the average transmitted '
+                          'energy per channel use' % (cname, l.pretty()), pre.path, pre.lineno, operand='energy:' + cname)
+    # ---- filters
+    base = M.cls('MimoBase')
+    zf, mm = M.lookup_method(base, '_calcZeroForceFilter'), M.lookup_method(base, '_calcMMSEFilter')
+    cx = X.Ctx()
+    it = X.MatInterp(M, cx, base)
+    nv = T.Term.sym('noise_var')
+    HH = X.adjoint(H, cx)
+    G = X.mul(HH, H, cx)
+    try:
+        wz = it.call_function(zf, [X.Val('mat', H)], {})
+        wm = it.call_function(mm, [X.Val('mat', H), X.Val('scal', nv, 'pos')], {})
+        w0 = it.call_function(mm, [X.Val('mat', H), X.Val('scal', T.Term.const(0), 'zero')], {})
+        if 'mat' != wz.kind or 'mat' != wm.kind or 'mat' != w0.kind:
+            raise X.Unknown('a filter is not a matrix')
+    except X.Unknown as e:
+        ctx.error('C04.d: cannot extract the ZF/MMSE filters (%s): cannot tell' % e)
+    eqs = [
+        ('MimoBase._calcZeroForceFilter:W H = I', zf, X.mul(wz.v, H, cx), X.MT.identity(), 'the zero-forcing filter is not a left inverse of the channel'),
+        ('MimoBase._calcMMSEFilter:(H^H H + s I) W = H^H', mm, X.mul(X.add(G, X.MT.identity(nv)), wm.v, cx), HH,
+         'the MMSE filter does not solve its defining equation (H^H H + noise_var I) W = H^H'),
+        ('MimoBase._calcMMSEFilter:noise -> 0 gives a left inverse', mm, X.mul(w0.v, H, cx), X.MT.identity(),
+         'the MMSE filter does not tend to the zero-forcing one as the noise vanishes'),
+    ]
+    for construct, fn, lhs, rhs, why in eqs:
+        ctx.instance('C04.d', construct)
+        ok, l, r = X.proves(lhs, rhs, cx)
+        ctx.obligation('C04.d', construct, ok, {'lhs': l.pretty(), 'rhs': r.pretty()})
+        if not ok:
+            ctx.violation('C04.d', fn.qualname, '%s: `%s` != `%s`' % (why, l.pretty(), r.pretty()), fn.path, fn.lineno,
+                          operand=construct.split(':', 1)[1])
+    # ---- the receive filter of Blast selects MMSE exactly when there is noise
+    bl = M.cls('Blast')
+    rf = M.lookup_method(bl, '_calc_receive_filter')
+    for state, want in (('zero', X.mul(wz.v, X.MT.identity(), cx)), ('pos', wm.v), ('none', X.mul(wz.v, X.MT.identity(), cx))):
+        construct = 'Blast._calc_receive_filter:noise_var %s' % state
+        ctx.instance('C04.d', construct)
+        cx2 = X.Ctx()
+        it2 = X.MatInterp(M, cx2, bl)
+        arg = X.Val('none') if state == 'none' else X.Val('scal', T.Term.const(0) if state == 'zero' else nv, state)
+        try:
+            g = it2.call_function(rf, [X.Val('mat', H), arg], {})
+        except X.Unknown as e:
+            ctx.error('C04.d: cannot extract Blast._calc_receive_filter for noise_var %s (%s): cannot tell' % (state, e))
+        sq = T.t_pow(Nt, T.Term.const(T.Fraction(1, 2)))
+        ok = g.kind == 'mat' and g.v == X.scale(want, sq)
+        ctx.obligation('C04.d', construct, ok, {'filter': g.v.pretty() if g.kind == 'mat' else g.kind, 'expected': X.scale(want, sq).pretty()})
+        if not ok:
+            ctx.violation('C04.d', rf.qualname, 'for noise_var %s the receive filter is `%s`, expected sqrt(Nt) x `%s`'
+                          % (state, g.v.pretty() if g.kind == 'mat' else g.kind, want.pretty()), rf.path, rf.lineno,
+                          operand='filter-selection:' + state)
 
 
 def synthetic():
@@ -218,10 +332,29 @@ MUTANTS = [
     Mutant('blast-decode-C-order', MI, 'Blast.decode', [('replace', "reshape(-1, order='F')", 'reshape(-1)')], r'C04\.b:Blast\.decode'),
     Mutant('svd-encode-F-order', MI, 'SVDMimo.encode', [('replace', 'transmit_data.reshape(self.Nt, -1)', "transmit_data.reshape(self.Nt, -1, order='F')")],
            r'C04\.b:SVDMimo\.decode'),
+    Mutant('svd-filter-transpose-without-conj', MI, 'SVDMimo._calc_receive_filter', [('replace', 'U.conj().T', 'U.T')],
+           r'C04\.d:SVDMimo\.decode:round-trip'),
+    Mutant('svd-precoder-VH-instead-of-V', MI, 'SVDMimo._calc_precoder', [('replace', 'V_H.conj().T / math.sqrt(Nt)', 'V_H / math.sqrt(Nt)')],
+           r'C04\.d:SVDMimo\.decode:round-trip'),
+    Mutant('blast-precoder-not-normalised', MI, 'Blast._calc_precoder', [('replace', 'np.eye(Nt) / math.sqrt(Nt)', 'np.eye(Nt)')],
+           r'C04\.d:Blast\._calc_precoder:energy'),
+    Mutant('blast-encode-no-power-split', MI, 'Blast.encode', [('regex', r' / math\.sqrt\(self\.Nt\)', '')], r'C04\.d:Blast\.decode:round-trip'),
+    Mutant('mmse-regulariser-sign', MI, 'MimoBase._calcMMSEFilter', [('replace', '+ noise_var * np.eye(Nt)', '- noise_var * np.eye(Nt)')],
+           r'C04\.d:MimoBase\._calcMMSEFilter'),
+    Mutant('mmse-gram-of-H-H_H', MI, 'MimoBase._calcMMSEFilter', [('replace', 'np.dot(H_H, H)', 'np.dot(H, H_H)')], r'C04\.[ad]:MimoBase\._calcMMSEFilter'),
+    Mutant('blast-filter-mmse-without-noise', MI, 'Blast._calc_receive_filter', [('replace', 'if noise_var > 0:', 'if noise_var >= 0:')],
+           r'C04\.d:Blast\._calc_receive_filter:filter-selection'),
+    Mutant('gmd-precoder-skips-P', MI, 'GMDMimo._calc_precoder', [('replace', 'W = P / math.sqrt(Nt)', 'W = V_H.conj().T / math.sqrt(Nt)')],
+           r'C04\.d:GMDMimo\.decode:round-trip'),
+    Mutant('benign-adjoint-of-product', MI, 'SVDMimo._calc_receive_filter',
+           [('replace', 'np.diag(1.0 / S).dot(U.conj().T)', 'U.dot(np.diag(1.0 / S)).conj().T')], None, benign=True),
+    Mutant('benign-solve-as-inverse', MI, 'MimoBase._calcMMSEFilter',
+           [('replace', 'np.linalg.solve(np.dot(H_H, H) + noise_var * np.eye(Nt), H_H)', 'np.linalg.inv(np.dot(H_H, H) + noise_var * np.eye(Nt)).dot(H_H)')],
+           None, benign=True),
     Mutant('benign-matmul-operator', MI, 'MimoBase._calcMMSEFilter', [('replace', 'np.dot(H_H, H)', 'H_H @ H')], None, benign=True),
     Mutant('benign-svd-decode-minus-one', MI, 'SVDMimo.decode', [('replace', 'decoded_data.reshape(decoded_data.size)', 'decoded_data.reshape(-1)')],
            None, benign=True),
 ]
 
-ENGINES = ['model', 'shapes']
-TECHNIQUE = 'static analysis: abstract interpretation over symbolic array shapes (conformability for all Nr >= Nt), reshape-order pairing'
+ENGINES = ['model', 'shapes', 'matterms']
+TECHNIQUE = 'static analysis: abstract interpretation over symbolic array shapes (conformability for all Nr >= Nt), reshape-order pairing, matrix-term normal forms (non-commutative rewriting under SVD/GMD/pinv contracts)'
